@@ -47,7 +47,7 @@ func leafKinds() []LeafCfg {
 	for _, st := range [][3]string{{"res", "res", "res"}, {"any", "any", "any"}, {"res", "any", "res"}, {"any", "res", "any"},
 		{"absent", "res", "res"}, {"any", "any", "absent"}} {
 		for _, fb := range []string{"pass", "custom"} {
-			for _, b := range []string{"option", "builder", "mixed"} {
+			for _, b := range []string{"option", "builder", "mixed", "mixed2"} {
 				ks = append(ks, LeafCfg{Retryable: true, Fb: fb, PrepS: st[0], ExecS: st[1], PostS: st[2], Build: b})
 			}
 		}
@@ -255,7 +255,7 @@ func genLeafRuns(r *rng, kinds []LeafCfg, budgets []int, fullMasks bool, emit fu
 // attempt `at` is interrupted; earlier waits fire, so they are short when at > 1.
 func genWaitCancelRuns(r *rng, kinds []LeafCfg, emit func(FlowScenario)) {
 	t := &tokGen{r: r}
-	ctxKinds := []string{"canceled", "deadline", "cause", "fardeadline"}
+	ctxKinds := []string{"canceled", "deadline", "cause", "fardeadline", "child"}
 	cnt := 0
 	for _, k := range kinds {
 		if !k.Retryable || k.ExecS == "absent" {
@@ -353,7 +353,7 @@ func randBatchCfg(r *rng, allowWide bool) BatchCfg {
 	c := BatchCfg{Budget: 1 + r.intn(3), Wait: 0, Fb: r.pick([]string{"pass", "pass", "custom"}),
 		ExecS: r.pick([]string{"res", "res", "any"}), HasPost: !r.chance(8),
 		Shape: r.pick([]string{"results", "results", "anys", "typed", "single", "nil"}),
-		Build: r.pick([]string{"option", "builder", "bare"}), ExecVia: r.pick([]string{"", "", "copt", "cbuilder"})}
+		Build: r.pick([]string{"option", "builder", "bare", "mixed", "mixed2"}), ExecVia: r.pick([]string{"", "", "copt", "cbuilder"})}
 	switch r.intn(4) {
 	case 0, 1:
 		c.Conc = 0
